@@ -51,8 +51,28 @@ def reduce_unit(p, quats):
     return p
 
 
+def _neg_sqrt(p):
+    """sqrt(u)^-k  ->  sqrt(u)^(k mod 2) * recip(u)^ceil(k/2): afterwards sqrt atoms only have exponent 0 or 1 and
+    the recip atoms are cleared by cross-multiplication."""
+    if not any(a.kind == "sqrt" and e < 0 for m in p.t for a, e in m):
+        return p
+    out = Poly()
+    for m, c in p.t.items():
+        term = Poly({tuple((a, e) for a, e in m if not (a.kind == "sqrt" and e < 0)): c})
+        for a, e in m:
+            if a.kind == "sqrt" and e < 0:
+                k = -e
+                u = a.key[0]
+                term = term * (u.recip() ** ((k + 1) // 2))
+                if k % 2:
+                    term = term * Poly.atom(a)
+        out = out + term
+    return out
+
+
 def _atom_relations(p):
     """Apply sqrt(x)^2 -> x, fabs(x)^2 -> x^2, sin(x)^2 -> 1 - cos(x)^2 (exponents >= 2, positive only)."""
+    p = _neg_sqrt(p)
     guard = 0
     while True:
         guard += 1
@@ -137,11 +157,46 @@ def opaque_atoms(p):
 
 
 def top_atoms(p):
-    return {a for a in p.atoms() if a.kind not in ("sym",)}
+    """Opaque building blocks of a side.  Series atoms are excluded: two different table entries are different
+    functions (their formulas are compared as rational functions in seriesform), so they count as indeterminates."""
+    return {a for a in p.atoms() if a.kind not in ("sym", "series")}
+
+
+_CANON_MEMO = {}
+
+
+def canon(p, depth=0):
+    """Recursive normalisation: arguments of opaque atoms are normalised first; recip(N/D) becomes D * recip(N)."""
+    if depth > 6 or not p.t:
+        return p
+    if all(a.kind == "sym" for a in p.atoms()):
+        return p
+    from .poly import rebuild
+
+    def f(a):
+        if a.kind == "sym":
+            return None
+        r = _CANON_MEMO.get(a)
+        if r is not None:
+            return r
+        newargs = tuple(canon(x, depth + 1) if isinstance(x, Poly) else x for x in a.key)
+        if a.kind == "recip":
+            q = _atom_relations(newargs[0])
+            num, den = split_rational(q)
+            num = _atom_relations(num)
+            r = den * num.recip() if num.t else Poly.atom(a)
+        elif any(x is not y and x != y for x, y in zip(newargs, a.key)):
+            r = rebuild(a.kind, newargs)
+        else:
+            r = Poly.atom(a)
+        _CANON_MEMO[a] = r
+        return r
+    out = p.subs(f)
+    return _atom_relations(out)
 
 
 def normal(p, quats=()):
-    p = _atom_relations(p)
+    p = canon(p)
     if quats:
         p = reduce_unit(p, quats)
     return p
